@@ -853,35 +853,114 @@ def multiply_no_wrap(db, chk, cfg, rule="P.multiply-no-wrap"):
             raise AnalysisBroken("Multiply: unknown callable %s" % nm)
         raise AnalysisBroken("Multiply: unsupported expression %s" % k)
 
-    for s in kids(f.body):
-        if s.get("kind") == "DeclStmt":
-            for d in kids(s):
-                if d.get("kind") != "VarDecl":
+    def shift_of(e):
+        """(variable name, K) if e is `v >> K` or a call of a local lambda whose body is `x >> K` on a plain variable."""
+        e0 = strip(e)
+        if e0.get("kind") == "BinaryOperator" and e0.get("opcode") == ">>":
+            l, r = strip(kids(e0)[0]), strip(kids(e0)[1])
+            if l.get("kind") == "DeclRefExpr" and r.get("kind") == "IntegerLiteral":
+                return l["referencedDecl"]["name"], int(r["value"])
+        if e0.get("kind") == "CXXOperatorCallExpr" and len(kids(e0)) == 3:
+            nm = strip(kids(e0)[1]).get("referencedDecl", {}).get("name")
+            a = strip(kids(e0)[2])
+            if nm in lambdas and a.get("kind") == "DeclRefExpr":
+                pn, body = lambdas[nm]
+                b0 = strip(body)
+                if b0.get("kind") == "BinaryOperator" and b0.get("opcode") == ">>":
+                    l, r = strip(kids(b0)[0]), strip(kids(b0)[1])
+                    if l.get("kind") == "DeclRefExpr" and l["referencedDecl"]["name"] == pn and r.get("kind") == "IntegerLiteral":
+                        return a["referencedDecl"]["name"], int(r["value"])
+        return None
+
+    def refine(c):
+        """Disjunction of refinements {variable: (lo, hi)} under which the condition can hold (an over-approximation)."""
+        c0 = strip(c)
+        if c0.get("kind") == "BinaryOperator" and c0.get("opcode") == "||":
+            return refine(kids(c0)[0]) + refine(kids(c0)[1])
+        if c0.get("kind") == "BinaryOperator" and c0.get("opcode") == "&&":
+            out = []
+            for a in refine(kids(c0)[0]):
+                for b in refine(kids(c0)[1]):
+                    m = dict(a)
+                    for k2, v2 in b.items():
+                        m[k2] = (max(m[k2][0], v2[0]), min(m[k2][1], v2[1])) if k2 in m else v2
+                    out.append(m)
+            return out
+        if c0.get("kind") == "UnaryOperator" and c0.get("opcode") == "!":
+            sh = shift_of(kids(c0)[0])
+            if sh and sh[0] in env:
+                return [{sh[0]: (env[sh[0]][0], min(env[sh[0]][1], (1 << sh[1]) - 1))}]
+        if c0.get("kind") == "BinaryOperator" and c0.get("opcode") in ("==", "<", "<="):
+            l, r = kids(c0)
+            for x, y in ((l, r), (r, l)):
+                y0 = strip(y)
+                if y0.get("kind") != "IntegerLiteral":
                     continue
-                init = [c for c in kids(d) if c.get("kind")]
-                lam = [x for x in walk(d) if x.get("kind") == "LambdaExpr"]
-                if lam:
-                    meth = [x for x in walk(lam[0]) if x.get("kind") == "CXXMethodDecl" and x.get("name") == "operator()"]
-                    if not meth:
-                        raise AnalysisBroken("Multiply: lambda without operator()")
-                    prm = [c for c in kids(meth[0]) if c.get("kind") == "ParmVarDecl"]
-                    body = [c for c in kids(meth[0]) if c.get("kind") == "CompoundStmt"][0]
-                    ret = [x for x in walk(body) if x.get("kind") == "ReturnStmt"][0]
-                    lambdas[d["name"]] = (prm[0]["name"], kids(ret)[0])
-                elif init:
-                    env[d["name"]] = iv(init[-1])
-        elif s.get("kind") == "ReturnStmt":
-            # arithmetic written directly into the returned aggregate ({ lo-expression, hi-expression })
-            def topmost(x):
+                cst = int(y0["value"])
+                if c0.get("opcode") != "==" and x is not l:
+                    continue
+                sh = shift_of(x)
+                top = cst if c0.get("opcode") in ("==", "<=") else cst - 1
+                if sh and sh[0] in env:
+                    return [{sh[0]: (env[sh[0]][0], min(env[sh[0]][1], ((top + 1) << sh[1]) - 1))}]
                 x0 = strip(x)
-                if x0.get("kind") in ("BinaryOperator", "CXXOperatorCallExpr"):
-                    iv(x0)
-                    return
-                for c in kids(x0):
-                    if isinstance(c, dict):
-                        topmost(c)
-            for x in kids(s):
-                topmost(x)
+                if x0.get("kind") == "DeclRefExpr" and x0["referencedDecl"]["name"] in env:
+                    v = x0["referencedDecl"]["name"]
+                    return [{v: (env[v][0], min(env[v][1], top))}]
+        return [{}]
+
+    def topmost(x):
+        x0 = strip(x)
+        if x0.get("kind") in ("BinaryOperator", "CXXOperatorCallExpr"):
+            iv(x0)
+            return
+        for c in kids(x0):
+            if isinstance(c, dict):
+                topmost(c)
+
+    def process(stmts):
+        for s in stmts:
+            if not isinstance(s, dict):
+                continue
+            k0 = s.get("kind")
+            if k0 == "CompoundStmt":
+                process(kids(s))
+            elif k0 == "DeclStmt":
+                for d in kids(s):
+                    if d.get("kind") != "VarDecl":
+                        continue
+                    init = [c for c in kids(d) if c.get("kind")]
+                    lam = [x for x in walk(d) if x.get("kind") == "LambdaExpr"]
+                    if lam:
+                        meth = [x for x in walk(lam[0]) if x.get("kind") == "CXXMethodDecl" and x.get("name") == "operator()"]
+                        if not meth:
+                            raise AnalysisBroken("Multiply: lambda without operator()")
+                        prm = [c for c in kids(meth[0]) if c.get("kind") == "ParmVarDecl"]
+                        body = [c for c in kids(meth[0]) if c.get("kind") == "CompoundStmt"][0]
+                        ret = [x for x in walk(body) if x.get("kind") == "ReturnStmt"][0]
+                        lambdas[d["name"]] = (prm[0]["name"], kids(ret)[0])
+                    elif init:
+                        env[d["name"]] = iv(init[-1])
+            elif k0 == "IfStmt":
+                from ..astq import if_parts
+                cond, then, els = if_parts(s)
+                for ref in refine(cond):
+                    saved = dict(env)
+                    env.update(ref)
+                    process([then])
+                    env.clear()
+                    env.update(saved)
+                if els is not None:
+                    saved = dict(env)
+                    process([els])
+                    env.clear()
+                    env.update(saved)
+            elif k0 == "ReturnStmt":
+                # arithmetic written directly into the returned aggregate ({ lo-expression, hi-expression })
+                for x in kids(s):
+                    topmost(x)
+
+    process(kids(f.body))
     if n < 8:
         raise AnalysisBroken("Multiply: only %d arithmetic intermediates recognised" % n)
     for txt, mx, node in problems[:1]:
